@@ -102,6 +102,9 @@ def _perf_cases(tier):
                                  dict(notes=[(72, 0.25, 0.75, 100, 2), (48, 0.0, 3.0, 30, 3)], controls=[], programs=[])]))
     cases.append(("unsorted_notes_touching", [dict(notes=[(60, 1.0, 2.0, 64, 0), (60, 0.0, 1.0, 65, 0), (62, 0.5, 0.5 + float(tick), 66, 0)], controls=[], programs=[])]))
     cases.append(("extreme_pitches_adjacent_channels", [dict(notes=[(127, 0.0, 1.0, 64, 0), (0, 0.25, 0.75, 65, 1), (127, 0.1, 0.2, 3, 14), (0, 0.15, 0.9, 4, 15)], controls=[], programs=[])]))
+    # equal onset and pitch on two channels, the lower channel released later; equal onset, pitch and release on two channels
+    cases.append(("same_onset_and_pitch_on_two_channels", [dict(notes=[(60, 0.0, 2.0, 64, 0), (60, 0.0, 1.0, 65, 1), (64, 0.5, 1.0, 66, 3), (64, 0.5, 1.0, 67, 2), (62, 0.0, 0.5, 60, 1)],
+                                                                controls=[], programs=[])]))
     cases.append(("meta_and_signatures", [dict(notes=[(60, 0.0, 1.0, 64, 0)], controls=[], programs=[(0.0, 1, 0), (0.5, 40, 0)],
                                                key_signatures=[dict(time=0.0, fifths=-3, mode="minor"), dict(time=1.0, fifths=2, mode="major")],
                                                time_signatures=[dict(time=0.0, beats=6, beat_type=8)], meta_other=[dict(time=0.25, type="marker", text="A")])]))
